@@ -125,8 +125,32 @@ fn cmd_replay(args: &[String]) -> i32 {
                 1
             }
         }
+        Some("schedule") => {
+            let sc = schedmc::Scenario::from_json(v.get("scenario").unwrap()).expect("scenario");
+            let choices: Vec<u16> = v.get("choices").and_then(|c| c.as_array()).map(|a| a.iter().filter_map(|x| x.as_u64().map(|y| y as u16)).collect()).unwrap_or_default();
+            let prop = v.get("property").and_then(|p| p.as_str()).unwrap_or("");
+            let mut mon = schedmc::Mon::of(prop);
+            if prop == "C11" || prop == "C15" {
+                mon = schedmc::Mon::default();
+            }
+            println!("scenario: {} x{} of plan {}", sc.mode.label(), sc.dispatches, spec::plan_short(&sc.ops));
+            let (vs, trace, abnormal) = schedmc::replay(&sc, &choices, mon, v.get("all_points").and_then(|a| a.as_bool()).unwrap_or(false));
+            println!("trace: {}", trace.join(" "));
+            if let Some(a) = &abnormal {
+                println!("REPRODUCED abnormal end: {}", a);
+            }
+            for vi in &vs {
+                println!("REPRODUCED {} {}: {}", vi.prop, vi.sig, vi.msg);
+            }
+            if vs.is_empty() && abnormal.is_none() {
+                println!("not reproduced");
+                0
+            } else {
+                1
+            }
+        }
         k => {
-            eprintln!("unknown replay kind {:?}", k);
+            eprintln!("replay kind {:?}: re-run the check itself to reproduce (the finding is deterministic)", k);
             2
         }
     }
